@@ -103,12 +103,22 @@ package tags
 //@ requires args: iter != nil && ctx != nil
 //@ ghost n Int = 0
 //@ ghost brk Bool = false
+//@ ghost decoratorFailed Bool = false
+//@ at call makeLoopDecorator #1: decoratorFailed = result1 != nil
 //@ at call Set #1 assert variable: arg0 == loop.Variable && arg1 == iter.Index(n) && n == i
 //@ at call Set #2 assert record: arg0 == "forloop" && is(arg1, map[string]any)
 //@ at call Set #2 assert fields: as(arg1, map[string]any)["index"] == box(i+1) && as(arg1, map[string]any)["index0"] == box(i) && as(arg1, map[string]any)["rindex"] == box(l-i) && as(arg1, map[string]any)["rindex0"] == box(l-i-1) && as(arg1, map[string]any)["length"] == box(l) && as(arg1, map[string]any)["first"] == box(i == 0) && as(arg1, map[string]any)["last"] == box(i == l-1)
 //@ at call Set #2 assert cycles: as(arg1, map[string]any)[".cycles"] == box(cycleMap, map[string]int) && fresh(cycleMap)
+//@ ghost failed Bool = false
 //@ at call RenderChildren #1: n = n + 1
+//@ at call RenderChildren #1: brk = result != nil && result.Cause() == errLoopBreak
+//@ at call RenderChildren #1: failed = result != nil && result.Cause() != errLoopBreak && result.Cause() != errLoopContinueLoop
+//@ at call Set #1 assert innermost: !brk && !failed
 //@ loop 1 invariant count: n == i && 0 <= i && i <= l && l == iter.Len()
+//@ loop 1 invariant running: !brk && !failed
+//@ ensures complete: result == nil && !brk && !decoratorFailed ==> n == iter.Len()
+//@ ensures childError: failed ==> result != nil
+//@ ensures breakIsNotAnError: !failed && !decoratorFailed ==> result == nil
 //@ loop 1 decreases l - i
 //@ ensures restoreVar: mapget(ctx.Bindings(), loop.Variable) == old(mapget(ctx.Bindings(), loop.Variable))
 //@ ensures restoreLoop: mapget(ctx.Bindings(), "forloop") == old(mapget(ctx.Bindings(), "forloop"))
